@@ -122,6 +122,29 @@ def r2(ctx, rule: str = "C12-R2") -> None:
     up = ctx.fn(PS, "Parameters.update_parameter_expression")
     fl = lib.flow(up, repo)
     cfg = fl.cfg
+    # the helper that decides "unchanged" must itself be exact
+    hp = ctx.fn("glotaran/utils/helpers.py", "nan_or_equal")
+    approx = [c for c in lib.calls(hp) if norm(c.func).split(".")[-1] in ("isclose", "allclose", "approx", "round", "around", "abs", "fabs", "isclose_")]
+    eqs = [n for n in lib.nodes(hp, ast.Compare) if len(n.ops) == 1 and isinstance(n.ops[0], ast.Eq)
+           and {norm(n.left), norm(n.comparators[0])} == set(hp.params()[:2])]
+    orders = [n for n in lib.nodes(hp, ast.Compare) if any(isinstance(o, (ast.Lt, ast.LtE, ast.Gt, ast.GtE)) for o in n.ops)]
+    rets = lib.nodes(hp, ast.Return)
+    ctx.ob(rule, "nan_or_equal/exact", not approx and not orders and bool(eqs) and all(any(lib.is_inside(e, r) for e in eqs) for r in rets), hp,
+           approx[0] if approx else hp.node,
+           "`nan_or_equal(a, b)` is `a == b` or both NaN: the fixed point of the expressions stops on it, so any tolerance (isclose, rounding, "
+           "|a-b| < eps) leaves dependent parameters stale after steps below the tolerance",
+           construct=lib.short(approx[0], 100) if approx else "def nan_or_equal")
+    # which parameters are refreshed: exactly those that currently have an expression
+    sel = [d for d in fl.defs_of("expression_parameters") if d.kind == "assign"]
+    ok_sel = False
+    if len(sel) == 1 and isinstance(sel[0].value, ast.ListComp) and len(sel[0].value.generators) == 1:
+        g = sel[0].value.generators[0]
+        v = norm(g.target)
+        ok_sel = norm(g.iter) == "self.all()" and norm(sel[0].value.elt) == v and len(g.ifs) == 1 and norm(g.ifs[0]) in (
+            f"{v}.expression is not None", f"{v}.expression")
+    ctx.ob(rule, "update_parameter_expression/selects-by-current-expression", ok_sel, up, sel[0].stmt if sel else up.node,
+           "the parameters refreshed are all parameters whose `expression` is set now (the derived `transformed_expression` survives "
+           "`expression = None` and would keep overwriting a released parameter)", construct=lib.short(sel[0].stmt, 110) if sel else "def")
     evals = [c for c in lib.calls(up) if lib.chain_text(c.func) == "self._evaluator"]
     ctx.sites(rule, "evaluator calls", len(evals), 1)
     for ev in evals:
